@@ -89,6 +89,15 @@ def pin_container_tree_btree_insertIntoLeaf : List String := ["func (r *btree[K,
   "insertOne(p0.values[:int(p0.n)+1], v0, p2)",
   "p0.n++"]
 
+/-- `btree.merge` in `container/tree`: signature and full statement list, locals renamed positionally -/
+def pin_container_tree_btree_merge : List String := ["func (r *btree[K, V]) merge(p0 *node[K, V])",
+  "v0, v1 := r.siblings(p0)",
+  "if v0 != nil && v0.n <= minKVs {",
+  "r.mergeTwo(v0, p0)",
+  "} else {",
+  "r.mergeTwo(p0, v1)",
+  "}"]
+
 /-- `btree.mergeTwo` in `container/tree`: signature and full statement list, locals renamed positionally -/
 def pin_container_tree_btree_mergeTwo : List String := ["func (r *btree[K, V]) mergeTwo(p0, p1 *node[K, V])",
   "v0 := p0.parent",
@@ -242,16 +251,81 @@ def pin_container_tree_btree_rotateRight : List String := ["func (r *btree[K, V]
   "}",
   "p1.n++"]
 
+/-- `btree.searchNode` in `container/tree`: signature and full statement list, locals renamed positionally -/
+def pin_container_tree_btree_searchNode : List String := ["func (r *btree[K, V]) searchNode(p0 K, p1 *node[K, V]) (o0 int, o1 bool)",
+  "for v0 := 0; v0 < int(p1.n); v0++ {",
+  "v1 := r.compare(p0, p1.keys[v0])",
+  "if v1 < 0 {",
+  "return v0, false",
+  "} else {",
+  "if v1 == 0 {",
+  "return v0, true",
+  "}",
+  "}",
+  "}",
+  "return int(p1.n), false"]
+
+/-- `btree.siblings` in `container/tree`: signature and full statement list, locals renamed positionally -/
+def pin_container_tree_btree_siblings : List String := ["func (r *btree[K, V]) siblings(p0 *node[K, V]) (*node[K, V], *node[K, V])",
+  "if p0.parent == nil {",
+  "return nil, nil",
+  "}",
+  "v0 := xslices.Index(p0.parent.children[:], p0)",
+  "var v1, v2 *node[K, V]",
+  "if v0 > 0 {",
+  "v1 = p0.parent.children[v0-1]",
+  "}",
+  "if v0 < int(p0.parent.n) {",
+  "v2 = p0.parent.children[v0+1]",
+  "}",
+  "return v1, v2"]
+
+/-- `btree.steal` in `container/tree`: signature and full statement list, locals renamed positionally -/
+def pin_container_tree_btree_steal : List String := ["func (r *btree[K, V]) steal(p0 *node[K, V]) bool",
+  "v0, v1 := r.siblings(p0)",
+  "if v1 != nil && v1.n > minKVs {",
+  "r.rotateLeft(p0, v1)",
+  "return true",
+  "}",
+  "if v0 != nil && v0.n > minKVs {",
+  "r.rotateRight(v0, p0)",
+  "return true",
+  "}",
+  "return false"]
+
 /-- `insertOne` in `container/tree`: signature and full statement list, locals renamed positionally -/
 def pin_container_tree_insertOne : List String := ["func insertOne[T0 any](p0 []T0, p1 int, p2 T0)",
   "copy(p0[p1+1:], p0[p1:])",
   "p0[p1] = p2"]
+
+/-- `newAmalgam1` in `container/tree`: signature and full statement list, locals renamed positionally -/
+def pin_container_tree_newAmalgam1 : List String := ["func newAmalgam1[T0 any, T1 any](p0 func(T0, T0) int, p1 *[maxKVs]T0, p2 *[maxKVs]T1, p3 *[branchFactor]*node[T0, T1], p4 T0, p5 T1, p6 *node[T0, T1]) amalgam1[T0, T1]",
+  "v0 := func() int { }()",
+  "func#0 {",
+  "for v1 := range *p1 {",
+  "if p0(p4, p1[v1]) < 0 {",
+  "return v1",
+  "}",
+  "}",
+  "return len(p1)",
+  "}",
+  "return amalgam1[T0, T1]{keys: p1, values: p2, children: p3, extraKey: p4, extraValue: p5, extraChild: p6, extraIdx: v0}"]
 
 /-- `removeOne` in `container/tree`: signature and full statement list, locals renamed positionally -/
 def pin_container_tree_removeOne : List String := ["func removeOne[T0 any](p0 []T0, p1 int)",
   "copy(p0[p1:], p0[p1+1:])",
   "var v0 T0",
   "p0[len(p0)-1] = v0"]
+
+/-- `rightmostLeaf` in `container/tree`: signature and full statement list, locals renamed positionally -/
+def pin_container_tree_rightmostLeaf : List String := ["func rightmostLeaf[T0 any, T1 any](p0 *node[T0, T1]) *node[T0, T1]",
+  "v0 := p0",
+  "for {",
+  "if v0.leaf() {",
+  "return v0",
+  "}",
+  "v0 = v0.children[int(v0.n)]",
+  "}"]
 
 /-- type `Bound` of `container/tree`: one line per field / method -/
 def pin_container_tree_type_Bound : List String := ["type Bound[K any] struct",
